@@ -139,7 +139,9 @@ def _plain_stmt(mod, tables):
                         rows = None
                         break
                 # an element is put in as often as the body mentions the loop variable: only elements without effects
-                simple = lambda x: isinstance(x, (ast.Constant, ast.Name)) or (isinstance(x, ast.Attribute) and simple(x.value))
+                # (reading names / attributes, comparing, arithmetic, a conditional expression over such: nothing is called)
+                simple = lambda x: not any(isinstance(y, (ast.Call, ast.Await, ast.Yield, ast.YieldFrom, ast.NamedExpr, ast.Lambda, ast.ListComp, ast.SetComp,
+                                                          ast.DictComp, ast.GeneratorExp, ast.Starred)) for y in ast.walk(x))
                 if rows is not None and all(simple(v) for r_ in rows for v in r_.values()):
                     out = []
                     for r_ in rows:
@@ -1298,8 +1300,13 @@ def check_option_alone(ck, R):
                 for c in fa.calls("__init__"):
                     if not (isinstance(A.call_recv(c), ast.Call) and A.call_attr(A.call_recv(c)) == "super") or not fa.nodes(c):
                         continue
-                    for kw in c.keywords:
-                        if kw.arg is not None and ARG_TO_KEY.get(kw.arg, kw.arg) == opt:
+                    nxt = inits[inits.index(fi) + 1:]
+                    bpar = [p_ for p_ in nxt[0].params if p_ != "self"] if nxt else []
+                    handed = [(kw.arg, kw.value) for kw in c.keywords if kw.arg is not None]
+                    handed += [(bpar[i], a_) for i, a_ in enumerate(c.args) if i < len(bpar) and not isinstance(a_, ast.Starred)]
+                    for (pname, pval) in handed:
+                        if ARG_TO_KEY.get(pname, pname) == opt:
+                            kw = ast.keyword(arg=pname, value=pval)
                             one = _Influence(ck, fa)
                             one.value(kw.value, fa.nodes(c)[0])
                             n += 1
